@@ -32,9 +32,11 @@ TRecheck == /\ IsEv("recheck")
 TClone == IsEv("clone") /\ Ev[l].clone = Ev[l].orig /\ Ev[l].orig_after = Ev[l].orig /\ UNCHANGED <<snapshot, held>> /\ Consume
 RealDevices == SelectSeq(snapshot.devices, LAMBDA d : d.serial # <<0, 0>>)
 TDeviceList == IsEv("devicelist") /\ Ev[l].serials = [i \in 1..Len(RealDevices) |-> RealDevices[i].serial] /\ UNCHANGED <<snapshot, held>> /\ Consume
+\* the same call answered twice by byte-identical replies, the first result edited by the caller in between: the results are equal
+TSameReply == IsEv("same_reply") /\ Ev[l].first = Ev[l].second /\ UNCHANGED <<snapshot, held>> /\ Consume
 Done == l = Len(Ev) + 1
 Accept == Done /\ UNCHANGED tv
-TraceNext == TConstruct \/ TNoEffect \/ TEventKept \/ TCall \/ TRecheck \/ TClone \/ TDeviceList \/ Accept
+TraceNext == TConstruct \/ TNoEffect \/ TEventKept \/ TCall \/ TRecheck \/ TClone \/ TDeviceList \/ TSameReply \/ Accept
 HighWater == IF l > TLCGet(sc) THEN TLCSet(sc, l) ELSE TRUE
 Report == \A i \in 1..Len(Hist) : PrintT(<<"REACHED", Hist[i].id, TLCGet(i) - 1, Len(Hist[i].ev)>>)
 ============================================================================
